@@ -123,7 +123,7 @@ pub fn sdd_from_tt<'a, B: SddBuilder<'a>>(b: &'a B, t: &Tt, v: usize) -> SddPtr<
     }
     let hi = sdd_from_tt(b, &t.cofactor(v, true), v + 1);
     let lo = sdd_from_tt(b, &t.cofactor(v, false), v + 1);
-    let x = SddPtr::Var(VarLabel::new(v as u64), true);
+    let x = SddPtr::Var(crate::gen::lab(v), true);
     let a = b.and(x, hi);
     let c = b.and(x.neg(), lo);
     b.or(a, c)
@@ -171,11 +171,13 @@ pub fn run_sdd_history(ctx: &mut Ctx, cfg: &SddCfg, ops: &[Op], checks: &SddChec
         (SddPtr::PtrTrue, Tt::konst(n, true)),
     ];
     for v in 0..n {
-        pool.push((b.var(VarLabel::new(v as u64), true), Tt::var(n, v)));
+        pool.push((b.var(crate::gen::lab(v), true), Tt::var(n, v)));
     }
     let mut rep: HashMap<Tt, SddPtr> = HashMap::new();
     let mut known: HashSet<SddPtr> = HashSet::new();
-    let hash_map = rsdd::repr::create_semantic_hash_map::<{ rsdd::constants::primes::U64_LARGEST }>(n);
+    let hash_map = rsdd::repr::create_semantic_hash_map::<{ rsdd::constants::primes::U64_LARGEST }>(
+        crate::gen::label_map().map(|m| m.iter().max().map(|x| x + 1).unwrap_or(1)).unwrap_or(n),
+    );
     let mut out = SddRun {
         canon: Vec::new(),
         tts: Vec::new(),
@@ -194,7 +196,7 @@ pub fn run_sdd_history(ctx: &mut Ctx, cfg: &SddCfg, ops: &[Op], checks: &SddChec
         ctx.count("ops", 1);
         ctx.count(&format!("op_{}", op.name()), 1);
         let (got, exp): (SddPtr, Tt) = match op {
-            Op::Var(v, p) => (b.var(VarLabel::new(*v as u64), *p), Tt::lit(n, *v, *p)),
+            Op::Var(v, p) => (b.var(crate::gen::lab(*v), *p), Tt::lit(n, *v, *p)),
             Op::Not(a) => {
                 let (p, t) = arg!(a);
                 (b.negate(p), t.not())
@@ -229,16 +231,16 @@ pub fn run_sdd_history(ctx: &mut Ctx, cfg: &SddCfg, ops: &[Op], checks: &SddChec
             }
             Op::Cond(x, v, val) => {
                 let (p, t) = arg!(x);
-                (b.condition(p, VarLabel::new(*v as u64), *val), t.cofactor(*v, *val))
+                (b.condition(p, crate::gen::lab(*v), *val), t.cofactor(*v, *val))
             }
             Op::Exists(x, v) => {
                 let (p, t) = arg!(x);
-                (b.exists(p, VarLabel::new(*v as u64)), t.exists(*v))
+                (b.exists(p, crate::gen::lab(*v)), t.exists(*v))
             }
             Op::Compose(x, v, y) => {
                 let (p, t) = arg!(x);
                 let (q, u) = arg!(y);
-                (b.compose(p, VarLabel::new(*v as u64), q), t.compose_doc(*v, &u))
+                (b.compose(p, crate::gen::lab(*v), q), t.compose_doc(*v, &u))
             }
             _ => panic!("HARNESS: op not defined for SDDs"),
         };
@@ -456,16 +458,16 @@ fn cold_replay(ctx: &mut Ctx, cfg: &SddCfg, op: &Op, pool: &[(SddPtr, Tt)], got:
         sdd_from_tt(f, &t, 0)
     };
     let r = match op {
-        Op::Var(v, p) => f.var(VarLabel::new(*v as u64), *p),
+        Op::Var(v, p) => f.var(crate::gen::lab(*v), *p),
         Op::Not(a) => f.negate(mk(a)),
         Op::And(x, y) => f.and(mk(x), mk(y)),
         Op::Or(x, y) => f.or(mk(x), mk(y)),
         Op::Xor(x, y) => f.xor(mk(x), mk(y)),
         Op::Iff(x, y) => f.iff(mk(x), mk(y)),
         Op::Ite(x, y, z) => f.ite(mk(x), mk(y), mk(z)),
-        Op::Cond(x, v, val) => f.condition(mk(x), VarLabel::new(*v as u64), *val),
-        Op::Exists(x, v) => f.exists(mk(x), VarLabel::new(*v as u64)),
-        Op::Compose(x, v, y) => f.compose(mk(x), VarLabel::new(*v as u64), mk(y)),
+        Op::Cond(x, v, val) => f.condition(mk(x), crate::gen::lab(*v), *val),
+        Op::Exists(x, v) => f.exists(mk(x), crate::gen::lab(*v)),
+        Op::Compose(x, v, y) => f.compose(mk(x), crate::gen::lab(*v), mk(y)),
         _ => return,
     };
     ctx.count("cold_replays", 1);
